@@ -479,6 +479,34 @@ pub fn run_c10(run: &Run) {
     for st in res {
         run.add_counts(st.0, st.0 * 11, st.0, st.1);
     }
+    // literally written conditions (bare atoms, bare negations ...) under the renamings that make labels read like
+    // formulas, escape images or each other's prefixes
+    {
+        let src = Source::Literal3;
+        let rens = [0usize, 6, 7, 8];
+        let per = 4 * 3 * rens.len() as u64;
+        let res = run.par_family(
+            &format!("{} x 4 fact orders x 3 sortings x {} renamings", src.name(), rens.len()),
+            src.size() * per,
+            || (0u64, 0u64),
+            |st, k| {
+                let c = src.get(k / per);
+                let v = k % per;
+                let (p, s, r) = ([0usize, 1, 5, 9][(v % 4) as usize], (v / 4 % 3) as usize, rens[(v / 12) as usize]);
+                st.0 += 1;
+                st.1 += (p != 0) as u64;
+                let perm = fixed_perm(6, p);
+                let (text, found) = small_variant(&c.fms, &c.tts, &perm, s, r, 0);
+                for (kind, msg) in found {
+                    run.violation(&kind, format!("{} on presentation {:?} (sorting {})", msg, text, s), json!({"type": "small-variant", "tts": c.tts, "perm": perm, "sorting": s, "renaming": r, "layout": 0, "text": text, "literal3": k / per}));
+                }
+            },
+            &|k| json!({"type": "small-variant", "index": k}),
+        );
+        for st in res {
+            run.add_counts(st.0, st.0 * 11, st.0, st.1);
+        }
+    }
     // F(3,2) (and S_seed): 14 fixed orders
     let mut srcs = vec![Source::FamCompact(fam_f(3, 2))];
     if !quick {
@@ -576,7 +604,10 @@ pub fn replay(c: &Value) -> Vec<(String, String)> {
     }
     let tts: Vec<TT> = c["tts"].as_array().map(|a| a.iter().map(|x| x.as_u64().unwrap_or(0) as TT).collect()).unwrap_or_default();
     let n = tts.len();
-    let fms: Vec<Fm> = tts.iter().map(|t| write_fm(*t, n, 5)).collect();
+    let fms: Vec<Fm> = match c["literal3"].as_u64() {
+        Some(idx) => Source::Literal3.get(idx).fms,
+        None => tts.iter().map(|t| write_fm(*t, n, 5)).collect(),
+    };
     let perm: Vec<usize> = c["perm"].as_array().map(|a| a.iter().map(|x| x.as_u64().unwrap_or(0) as usize).collect()).unwrap_or_default();
     small_variant(&fms, &tts, &perm, c["sorting"].as_u64().unwrap_or(0) as usize, c["renaming"].as_u64().unwrap_or(0) as usize, c["layout"].as_u64().unwrap_or(0) as usize).1
 }
